@@ -47,6 +47,8 @@ VARIANTS = {
     # same optimisation level as "sim" without -fopenmp / instrumentation: the
     # "OpenMP not compiled in" twin used for the bitwise build comparison of C13
     "serial0": dict(cflags=["-O0", "-g"], runtime=False, ldflags=[]),
+    # real libgomp, real threads: used ONLY by the stub-fidelity self-test (uncontrolled executions, not evidence)
+    "omp": dict(cflags=["-O2", "-fopenmp"], runtime=False, ldflags=["-fopenmp"]),
     "asan": dict(
         cflags=["-O1", "-g", "-fsanitize=address,undefined", "-fno-omit-frame-pointer", "-fno-sanitize-recover=undefined"],
         runtime=False,
